@@ -30,14 +30,9 @@ def compare_one(ctx, p, res, mline, pid, desc):
     mres = m['results']
     ires = [q for q in imp if q.startswith('R ')]
     if m['tie']:
+        # ties are resolved by the heap discipline of std::priority_queue, which the model mirrors
+        # (Search.pickHeap): traces and results are compared exactly, ties or not
         ctx.extra['ties'] = ctx.extra.get('ties', 0) + 1
-        # tie-insensitive observables only: number of results and their scores (with mixed head
-        # directions equal priorities do not even determine the scores: status only)
-        if not p.head_uniform:
-            return m
-        if [q.split(' ')[1] for q in mres] != [q.split(' ')[1] for q in ires]:
-            ctx.disagree('search', desc, ' ; '.join(mres)[:400], ' ; '.join(ires)[:400], note='scores differ (ties present)')
-        return m
     if list(m['pops']) != list(res['pops']):
         k = 0
         while k < min(len(m['pops']), len(res['pops'])) and m['pops'][k] == res['pops'][k]:
